@@ -268,6 +268,18 @@ fn table_1d(args: &Args, ev: &mut Ev, full: bool) {
                         };
                         let mut spec = Spec1::new(data.clone(), ax.as_ref().map(|a| Array1::from(a.clone())), strat);
                         spec.dynamic = dynamic;
+                        // validity must not depend on how the data are stored
+                        match case % 4 {
+                            1 => spec.data_lay = vh::lay::Layout::f(shape.len()),
+                            2 => spec.data_lay = vh::lay::Layout::reversed(shape.len()),
+                            3 => {
+                                let mut r = Rng::derive(7, "C10-layout", &[case]);
+                                spec.data_lay = vh::lay::Layout::random(&mut r, shape.len());
+                                spec.x_lay = vh::lay::Layout::random(&mut r, 1);
+                            }
+                            _ => {}
+                        }
+                        ev.count("data_layout", spec.data_lay.class());
                         let what = format!(
                             "1-D {:?} {} data shape {:?} axis {}",
                             st,
@@ -401,6 +413,13 @@ fn table_2d(args: &Args, ev: &mut Ev, full: bool) {
                                 Strat2::Bilinear { extrapolate: false },
                             );
                             spec.dynamic = dynamic;
+                            if case % 3 == 1 {
+                                spec.data_lay = vh::lay::Layout::f(shape.len());
+                            } else if case % 3 == 2 {
+                                let mut r = Rng::derive(7, "C10-layout", &[case]);
+                                spec.data_lay = vh::lay::Layout::random(&mut r, shape.len());
+                                spec.y_lay = vh::lay::Layout::random(&mut r, 1);
+                            }
                             let what = format!(
                                 "2-D Bilinear {} data shape {:?} x {} y {}",
                                 if dynamic { "dynamic" } else { "static" },
